@@ -106,6 +106,10 @@ class C11(Prop):
     def judge(self, c, impl, mod):
         j = Judgement()
         j.key = repr((c['param'], c['equity'], c['fee'], c['prices'], c['weights']))
+        gsum = sum(abs(Fraction(x)) for _, x in c['weights'])
+        if 0 < abs(gsum - ATOL) < ATOL / 10**6:
+            j.knife += 1          # gross exposure on the np.isclose threshold
+            return j
         compare_sizer(c, impl, mod, j, ls_knife(c))
         out = j.failures
         w = [(a, Fraction(x)) for a, x in c['weights']]
